@@ -53,12 +53,32 @@ func RunC02(tier string) int {
 		var names []string
 		zeroBuild, partialBuild := false, false
 		reloc := 0
+		forceNoop := 0
 		for k := 0; k <= steps; k++ {
 			bo := BuildOpts{}
 			name := "cold"
-			if k > 0 {
+			stepCfg := cfg
+			if k > 0 && forceNoop > 0 {
+				forceNoop--
+				name = "noop"
+			} else if k > 0 {
 				name = ""
-				switch x := r.Intn(20); {
+				switch x := r.Intn(21); {
+				case x == 20:
+					// a build with the cache switched off, then two unchanged builds with the cache
+					// on: whatever the first of them has to re-execute, the second executes nothing
+					name = "cache-disabled-build"
+					if r.Chance(2, 3) {
+						// some targets get a new state first, whose first record is then the one of
+						// the cache-disabled build
+						for j := r.Range(1, 3); j > 0; j-- {
+							env.Apply(func() string { return OpSalt(r, env) })
+						}
+						name = "edit+cache-disabled-build"
+					}
+					stepCfg.EnableCache = false
+					bo.DisableCache = true
+					forceNoop = 2
 				case x < 5: // no-op rebuild
 					name = "noop"
 				case x < 10: // perturb an output path of a cached target
@@ -103,7 +123,7 @@ func RunC02(tier string) int {
 				}
 			}
 			names = append(names, name)
-			if name != "noop" && name != "relocate-checkout" && name != "env-perturbed" && name != "switch-platform" && !strings.HasPrefix(name, "out-") && !strings.HasPrefix(name, "dir-out") && name != "file-where-dir-should-be" {
+			if name != "noop" && name != "relocate-checkout" && name != "env-perturbed" && name != "switch-platform" && !strings.HasSuffix(name, "cache-disabled-build") && !strings.HasPrefix(name, "out-") && !strings.HasPrefix(name, "dir-out") && name != "file-where-dir-should-be" {
 				bo.Patterns = somePatterns(r, env.Spec)
 			}
 			ext := ""
@@ -118,7 +138,7 @@ func RunC02(tier string) int {
 				bo.Patterns = nil
 				run.Count("grog_test_invocations", 1)
 			}
-			p, obs, vs, err := env.Step(bo, cfg, ext, isTest)
+			p, obs, vs, err := env.Step(bo, stepCfg, ext, isTest)
 			if err != nil {
 				run.Infra(err.Error())
 				return
